@@ -132,6 +132,19 @@ def _work(task) -> core.Part:
                     if p.full("kaifa"):
                         p.capped = True
                         return p
+    elif sweep == "words":
+        have = [n for n in ("list_ver_id", "meter_id", "meter_type") if n in names]
+        for t in cosemx.word_texts():
+            for fld in have:
+                v = base_values(names)
+                v[fld] = t
+                e = check(layout, v)
+                p.add("evaluations")
+                p.add("nontrivial")
+                if e:
+                    _report(p, layout, v, e, f"{fld} = {t!r}")
+                    if p.full("kaifa"):
+                        return p
     elif sweep == "textlen":
         lens = (0, 1, 5, 6, 7, 8, 11, 12, 13, 16, 32)
         have = [n for n in ("list_ver_id", "meter_id", "meter_type") if n in names]
@@ -170,7 +183,7 @@ def main(run: core.Run) -> int:
                 "all-equal rows, text fields over 5 strings; complete 2^16 sweeps of the low (and thorough: high) half-word of one current and one voltage register; each as bare body and as frame with an APDU date-time; "
                 "non-trivial = distinct lists decoded")
     cosemx.bind_fixtures()
-    tasks = [(lay, run.seed, None) for lay in (1, 9, 13, 14, 18, "se")] + [(lay, run.seed, "textlen") for lay in (9, 13, 14, 18, "se")] + [(lay, run.seed, "pairs") for lay in (9, 13, 14, 18, "se")]
+    tasks = [(lay, run.seed, None) for lay in (1, 9, 13, 14, 18, "se")] + [(lay, run.seed, "textlen") for lay in (9, 13, 14, 18, "se")] + [(lay, run.seed, "pairs") for lay in (9, 13, 14, 18, "se")] + [(lay, run.seed, "words") for lay in (13, 18, "se")]
     for field in ("current_l2", "voltage_l3", "active_power_import"):
         for a in range(0, 256 if q else 8192, 64):
             tasks.append((18, run.seed, ("lattice", field, a, a + 64)))
